@@ -76,12 +76,16 @@ variable [Add α] [OfNat α 0]
 /-- a model matrix as the numpy array the Python function receives / returns -/
 def ofMat (M : Mat α) : A2 α := { h := M.r, w := M.c, data := M.data.toList }
 
+omit [Add α] in
 @[simp] theorem ofMat_h (M : Mat α) : (ofMat M).h = M.r := rfl
+omit [Add α] in
 @[simp] theorem ofMat_w (M : Mat α) : (ofMat M).w = M.c := rfl
 
+omit [Add α] in
 theorem ofMat_zeros (r c : Nat) : (A2.zeros (r : Int) (c : Int) : A2 α) = ofMat (Mat.zeros r c) := by
   simp [ofMat, Mat.zeros]
 
+omit [Add α] in
 theorem ofMat_get [Inhabited α] (M : Mat α) {i j : Nat} (hi : i < M.r) (hj : j < M.c) :
     A2.get (ofMat M) (i : Int) (j : Int) = M.get i j := by
   rw [A2.get_natCast _ _ _ (by simpa using hi) (by simpa using hj)]
@@ -90,6 +94,7 @@ theorem ofMat_get [Inhabited α] (M : Mat α) {i j : Nat} (hi : i < M.r) (hj : j
   simp only [Mat.get, hi, hj, and_self, if_true, ofMat, array_getD_toList]
   exact getD_default_irrel _ _ _ _ hlt
 
+omit [Add α] [OfNat α 0] in
 theorem ofMat_put (M : Mat α) {i j : Nat} (x : α) (hi : i < M.r) (hj : j < M.c) :
     A2.set (ofMat M) (i : Int) (j : Int) x = ofMat (M.put i j x) := by
   rw [A2.set_natCast _ _ _ _ (by simpa using hi) (by simpa using hj)]
@@ -101,8 +106,10 @@ theorem ofMat_add [Inhabited α] (M : Mat α) {i j : Nat} (x : α) (hi : i < M.r
       = ofMat (M.add i j x) := by
   rw [ofMat_get M hi hj, ofMat_put M _ hi hj]; rfl
 
+omit [Add α] [OfNat α 0] in
 @[simp] theorem put_r (M : Mat α) (i j : Nat) (x : α) : (M.put i j x).r = M.r := by
   unfold Mat.put; split <;> rfl
+omit [Add α] [OfNat α 0] in
 @[simp] theorem put_c (M : Mat α) (i j : Nat) (x : α) : (M.put i j x).c = M.c := by
   unfold Mat.put; split <;> rfl
 @[simp] theorem add_r (M : Mat α) (i j : Nat) (x : α) : (M.add i j x).r = M.r := put_r _ _ _ _
